@@ -151,7 +151,17 @@ static void case_c02(rng_t *r, ctx_t *c) {
     gen_def(r, &d, 3, 1, t, dcls);
     int fcls; int64_t first = gen_first_id(r, &fcls);
     d.sample_id_offset = first;
-    int wantband = dcls != DEF_BIGBLOCK && rng_chance(r, 1, 4);
+    /* summary chunks larger than the reader's initial 1 MiB buffer (more than 65536 f32 or 32768 f64 entries), long enough that
+     * level 1 holds such a chunk and a lead-in of an unaligned level-2 request is itself served from level 1 */
+    int bigsum = dcls != DEF_BIGBLOCK && t->bits >= 16 && rng_chance(r, 1, 12);
+    if (bigsum) {
+        int wide = t->bits > 32;
+        d.sample_decimate_factor = wide ? 12 : 16;
+        d.samples_per_data = d.sample_decimate_factor * (uint32_t) rng_range(r, 100, 2000);
+        d.summary_decimate_factor = rng_chance(r, 1, 2) ? 50 : 100;
+        d.entries_per_summary = (uint32_t) (wide ? rng_range(r, 32800, 36000) : rng_range(r, 65600, 70000));
+    }
+    int wantband = dcls != DEF_BIGBLOCK && !bigsum && rng_chance(r, 1, 4);
     if (wantband) {   /* summary chunks wider than 25 entries of the next level: see "band" below */
         d.sample_decimate_factor = 10; d.summary_decimate_factor = 10;
         d.samples_per_data = 10 * (uint32_t) rng_range(r, 1, 5);
@@ -178,6 +188,10 @@ static void case_c02(rng_t *r, ctx_t *c) {
     }
     while (n > budget && target > 0) { --target; need /= nm.summary_decimate_factor; n = need + rng_range(r, 0, need / 2 + 3); }
     if (n > budget) n = budget;
+    if (bigsum) {   /* one full level-1 chunk and a bit, whatever the budget says: 0.4M (64-bit) or 1.1M samples */
+        int64_t full = (int64_t) nm.entries_per_summary * nm.sample_decimate_factor;
+        n = full + rng_range(r, 1, full / 3);
+    }
     int pat = rng_chance(r, 3, 4) ? PAT_WALK : PAT_SMALL;
     if (t->bits >= 16 && rng_chance(r, 1, 3)) pat = PAT_OFFSET;
     int si = prog_add_signal(&p, &d, "stat", "A", pat, rng_u64(r));
@@ -200,8 +214,10 @@ static void case_c02(rng_t *r, ctx_t *c) {
     decode_and_compare(path, &m, "C05", "sync", 0);
     int levels = 0;
     { jd_t dd; if (!jd_load(&dd, path)) { jd_decode(&dd); levels = summary_levels(&dd, 3); jd_free(&dd); } }
-    v_feature("C02", m.sig[3].have, "%s|def=%s|levels=%d|first=%s|pat=%d|gap=%d|band=%d", t->name, DEF_CLASS_NAME[dcls], levels, FIRST_NAME[fcls], pat, gap, band);
+    v_feature("C02", m.sig[3].have, "%s|def=%s|levels=%d|first=%s|pat=%d|gap=%d|band=%d", t->name, bigsum ? "bigsummary" : DEF_CLASS_NAME[dcls], levels, FIRST_NAME[fcls], pat, gap, band);
     verify_opts_t vo = {.prop_len = "C01", .prop_data = NULL, .check_stats = 1, .stats_requests = c->thorough ? 120 : 80, .max_level = c->thorough ? 5 : 3, .rng = r, .file_kind = "sync"};
+    vo.fresh_path = path; vo.fresh_den = (bigsum || dcls == DEF_BIGBLOCK) ? 2 : 8;
+    if (bigsum) vo.stats_requests = 40;
     verify_file(path, &m, &vo);
     model_free(&m); prog_free(&p); free(l.ops);
     if (!getenv("VERIF_KEEP")) unlink(path);
